@@ -4,7 +4,8 @@
 (* against the string operators of IndelMap.tla.                              *)
 (*                                                                            *)
 (* TRACE_FILE is a JSON array of events                                       *)
-(*     [op |-> "Slice"|"Index"|"Rc"|"Concat"|"Joined"|"Minus"|"SeqIndex",     *)
+(*     [op |-> "Slice"|"Index"|"Rc"|"Concat"|"Joined"|"Minus"|"SeqIndex"|     *)
+(*             "Unchanged" (the object the calls were made on, read again),   *)
 (*      from |-> gapped sequence, args |-> <<...>>, to |-> gapped sequence,   *)
 (*      ok |-> the call returned, exc |-> text of the exception otherwise]    *)
 (* A gapped sequence is a sequence over 0..4: 0 gap, 1..4 = A C G T, i.e. the *)
@@ -18,7 +19,7 @@ EXTENDS IndelMap
 Events == JsonDeserialize(IOEnv.TRACE_FILE)
 
 VARIABLES k, bad
-tvars == <<g, k, bad>>
+tvars == <<g, out, k, bad>>
 
 Comp(x) == IF x = 0 THEN 0 ELSE 5 - x                 \* A<->T, C<->G, gap stays
 RcS(s)  == [i \in 1..Len(s) |-> Comp(s[Len(s) + 1 - i])]
@@ -29,18 +30,20 @@ Matches(e) ==
     /\ CASE e.op = "Slice"    -> e.to = SliceS(e.from, e.args[1], e.args[2])
          [] e.op = "Index"    -> e.to = IndexS(e.from, e.args[1])
          [] e.op = "Rc"       -> e.to = RcS(e.from)
+         [] e.op = "Unchanged" -> e.to = e.from      \* the receiver read again after calls on it
          [] e.op = "Concat"   -> e.to = ConcatS(e.from, e.args[1])
          [] e.op = "Joined"   -> e.to = JoinS(e.from, e.args[1])
          [] e.op = "Minus"    -> e.to = MinusS(e.from, e.args[1])
          [] e.op = "SeqIndex" -> e.to = <<SeqIndexS(Bits(e.from), e.args[1])>>
          [] OTHER             -> FALSE
 
-TraceInit == g = <<>> /\ k = 1 /\ bad = {}
+TraceInit == g = <<>> /\ out = NoOut /\ k = 1 /\ bad = {}
 
 TraceNext ==
     /\ k <= Len(Events)
     /\ k' = k + 1
     /\ g' = Events[k].to
+    /\ out' = out
     /\ bad' = IF Matches(Events[k]) THEN bad ELSE bad \cup {k}
 
 TraceSpec == TraceInit /\ [][TraceNext]_tvars
